@@ -1354,7 +1354,7 @@ static int64_t pick_len(Rng &r, int64_t maxm, int hdr)
 	if (k < 20) return hdr;
 	if (k < 30) return hdr + 1 + (int64_t)r.below(47);
 	if (k < 60) return 48 + (int64_t)r.below(400);
-	if (k < 70) return maxm - (int64_t)r.below(2);
+	if (k < 70) return maxm - (int64_t)r.below(4);
 	if (k < 76) return maxm + 1 + (int64_t)r.below(2);
 	if (k < 80) return maxm + 4096;
 	return hdr + (int64_t)r.below((uint64_t)std::max<int64_t>(1, maxm - hdr));
@@ -1499,8 +1499,9 @@ static void gen(const char *prop, RunSpec &spec)
 	p.set("transport", r.below(2));
 	int nc = w == 6 ? 1 : (int)r.range(1, 3);
 	p.set("nclients", nc);
-	static const int64_t MAXM[] = { 0, 512, 1000, 4096, 8192, 20000 };
-	int64_t maxm = MAXM[r.below(6)];
+	// (16371, 20467, 24563: the ring of such a maximum fills its pages to the last word; their neighbours)
+	static const int64_t MAXM[] = { 0, 512, 1000, 4096, 8192, 20000, 16371, 16369, 20467, 24563, 16372, 20466 };
+	int64_t maxm = MAXM[r.below(12)];
 	p.set("maxm", maxm);
 	p.set("enforce_size", r.chance(1, 5) ? (int64_t)MAXM[1 + r.below(5)] : 0);
 	p.set("rate_eintr", r.chance(1, 3) ? (int64_t)r.range(200, 2500) : 0);
@@ -1589,7 +1590,7 @@ static void gen(const char *prop, RunSpec &spec)
 			if (r.chance(1, 4)) p.add(1, K_C_SLEEP, r.range(100, 30000));
 		}
 	}
-	if ((w == 2 || w == 4) && r.chance(1, 8)) {
+	if ((w == 2 || w == 4 || w == 6) && r.chance(1, 8)) {
 		// "request storm": the application is slow over one request while the client sends 60..300 more without waiting, at
 		// every rate limit: the dispatcher then finds far more queued than it handles in one batch
 		p.add(0, K_S_RATE, T_TICK, -1, 1, r.below(3));
